@@ -35,7 +35,7 @@ def FileState.ok : FileState → Option (List Cmd)
 def FileState.hopeless (f : FileState) : Prop := f = .missing ∨ f = .denied
 
 /-- files whose failure is retried -/
-def FileState.retryable (f : FileState) : Prop := f = .directory ∨ f = .malformed ∨ f = .notDir
+def FileState.retryable (f : FileState) : Prop := f = .directory ∨ f = .malformed ∨ f = .other
 
 theorem loadDatabase_good (cs : List Cmd) : loadDatabase (.good cs) = .ok cs := rfl
 
@@ -85,12 +85,12 @@ theorem lwp_ok_iff (main personal : FileState) (db : List Cmd) :
       | denied => obtain ⟨e, he, _⟩ := lwp_personal_denied m; rw [he] at h; cases h
       | directory => obtain ⟨e, he, _⟩ := lwp_personal_retryable m (personal := .directory) (Or.inl rfl); rw [he] at h; cases h
       | malformed => obtain ⟨e, he, _⟩ := lwp_personal_retryable m (personal := .malformed) (Or.inr (Or.inl rfl)); rw [he] at h; cases h
-      | notDir => obtain ⟨e, he, _⟩ := lwp_personal_retryable m (personal := .notDir) (Or.inr (Or.inr rfl)); rw [he] at h; cases h
+      | other => obtain ⟨e, he, _⟩ := lwp_personal_retryable m (personal := .other) (Or.inr (Or.inr rfl)); rw [he] at h; cases h
     | missing => obtain ⟨e, he, _⟩ := lwp_main_hopeless (main := .missing) (Or.inl rfl) personal; rw [he] at h; cases h
     | denied => obtain ⟨e, he, _⟩ := lwp_main_hopeless (main := .denied) (Or.inr rfl) personal; rw [he] at h; cases h
     | directory => obtain ⟨e, he, _⟩ := lwp_main_retryable (main := .directory) (Or.inl rfl) personal; rw [he] at h; cases h
     | malformed => obtain ⟨e, he, _⟩ := lwp_main_retryable (main := .malformed) (Or.inr (Or.inl rfl)) personal; rw [he] at h; cases h
-    | notDir => obtain ⟨e, he, _⟩ := lwp_main_retryable (main := .notDir) (Or.inr (Or.inr rfl)) personal; rw [he] at h; cases h
+    | other => obtain ⟨e, he, _⟩ := lwp_main_retryable (main := .other) (Or.inr (Or.inr rfl)) personal; rw [he] at h; cases h
   · rintro ⟨m, rfl, ⟨p, rfl, rfl⟩ | ⟨rfl, rfl⟩⟩
     · exact lwp_good_good m p
     · exact lwp_good_missing _
